@@ -44,8 +44,10 @@ def scratch(prefix="qsv-"):
     return tempfile.mkdtemp(prefix=prefix, dir=base)
 
 
-def _java_cmd(heap=None, deque=False):
+def _java_cmd(heap=None, deque=False, tmpdir=None):
     cmd = ["java", "-XX:+UseParallelGC"]
+    if tmpdir:
+        cmd.append("-Djava.io.tmpdir=%s" % tmpdir)     # TLC leaves an empty tlc-<n> directory per run: keep it in the scratch dir
     if heap:
         cmd.append("-Xmx%s" % heap)
     if deque:
@@ -94,7 +96,7 @@ def run(workdir, module, cfg, workers=16, simulate=None, depth=None, seed=None, 
     """Run TLC on workdir/module.tla with workdir/cfg.  Returns Result; raises TLCError
     for machinery failures."""
     meta = os.path.join(workdir, "meta-%d" % int(time.time() * 1e6))
-    cmd = _java_cmd(heap, deque) + ["-workers", str(workers), "-metadir", meta, "-noGenerateSpecTE",
+    cmd = _java_cmd(heap, deque, workdir) + ["-workers", str(workers), "-metadir", meta, "-noGenerateSpecTE",
                                     "-config", cfg]
     if simulate:
         cmd += ["-simulate", simulate]
